@@ -1,5 +1,6 @@
 import Vflow.Model.Reader
 import Vflow.Gen.Sites
+import Vflow.Gen.ReaderIR
 import Vflow.Spec.Sites
 /-!
 # C19 — the byte reader never reads outside its buffer and accounts exactly
@@ -128,6 +129,132 @@ theorem readN_eq_read (r : Rd) (n : Nat) :
 /-- non-vacuity: a concrete run exercising a failed read, a negative read, a peek and integer reads -/
 example : Rd.outs ⟨[1,2,3,4,5], 0⟩ [.u16, .read (-1), .peek 2, .read 9, .u8, .len, .readCount, .read 2, .u8] =
     [.num 258, .fail, .bytes [3,4], .fail, .num 3, .num 2, .num 3, .bytes [4,5], .fail] := by decide
+
+/-! ## Tie (translation): the methods of `reader/reader.go`, translated on every run, are the steps of the model
+
+`Gen.ReaderIR` is regenerated from the Go AST by `factgen` (`reader_ir.go`); `ReaderIR.Body.run` gives the translated
+statements Go's slice semantics, with `none` for an index or slice bound out of range.  Each theorem below is for every
+state and every `int` argument: the translated method returns exactly what `Rd.step` returns — in particular it never
+reaches `none` (no panic, no octet beyond `len(r.data)`), a failing call leaves the reader untouched, and the
+theorems above are about what the current source says. -/
+section Translation
+open ReaderIR
+
+/-- the translated method, run on state `r` with argument `n` -/
+def runGen (m : Method) (r : Rd) (n : Int) : Option (Rd × ROut) :=
+  m.body.run Gen.ReaderIR.advance Gen.ReaderIR.peek.body r n
+
+theorem fixed_step (r : Rd) (k : Nat) (hk : 0 < k) (n : Int) (v : Val)
+    (hv : ∀ d : Bytes, k ≤ d.length → v.eval d n = some (.num (beN (d.take k)))) :
+    Body.runSimple (.readLike ⟨false, .k k⟩ v (.k k)) [.reslice, .countAdd] r n =
+      some (match r.take? k with | some b => (r.adv k, .num (beN b)) | none => (r, .fail)) := by
+  unfold Body.runSimple Guard.fails Rd.take? Rd.adv
+  have h0 : ¬ ((k : Int) < 0) := by omega
+  by_cases h : r.rem.length < k
+  · have : ((r.rem.length : Int) < (k : Int)) := by omega
+    simp [Width.eval, h, this]
+  · have h' : ¬ ((r.rem.length : Int) < (k : Int)) := by omega
+    have hv' := hv r.rem (by omega)
+    simp [Width.eval, h, h', hv', runAdv, AdvStmt.run, h0, Int.toNat_natCast]
+    omega
+
+theorem gen_reader_uint8 (r : Rd) (n : Int) : runGen Gen.ReaderIR.uint8 r n = some (r.step .u8) := by
+  unfold runGen
+  simp only [Gen.ReaderIR.uint8, Gen.ReaderIR.advance, Body.run]
+  rw [fixed_step r 1 (by decide) n .index0]
+  · rfl
+  · intro d hd
+    match d, hd with
+    | x :: t, _ => simp [Val.eval, beN]
+
+theorem gen_reader_uint16 (r : Rd) (n : Int) : runGen Gen.ReaderIR.uint16 r n = some (r.step .u16) := by
+  unfold runGen
+  simp only [Gen.ReaderIR.uint16, Gen.ReaderIR.advance, Body.run]
+  rw [fixed_step r 2 (by decide) n (.be 2)]
+  · rfl
+  · intro d hd; simp [Val.eval]; omega
+
+theorem gen_reader_uint32 (r : Rd) (n : Int) : runGen Gen.ReaderIR.uint32 r n = some (r.step .u32) := by
+  unfold runGen
+  simp only [Gen.ReaderIR.uint32, Gen.ReaderIR.advance, Body.run]
+  rw [fixed_step r 4 (by decide) n (.be 4)]
+  · rfl
+  · intro d hd; simp [Val.eval]; omega
+
+theorem gen_reader_uint64 (r : Rd) (n : Int) : runGen Gen.ReaderIR.uint64 r n = some (r.step .u64) := by
+  unfold runGen
+  simp only [Gen.ReaderIR.uint64, Gen.ReaderIR.advance, Body.run]
+  rw [fixed_step r 8 (by decide) n (.be 8)]
+  · rfl
+  · intro d hd; simp [Val.eval]; omega
+
+theorem peek_simple (r : Rd) (n : Int) :
+    Body.runSimple (.peekLike ⟨true, .arg⟩ (.pfx .arg)) [.reslice, .countAdd] r n =
+      some (match r.take? n with | some b => (r, .bytes b) | none => (r, .fail)) := by
+  unfold Body.runSimple Guard.fails Rd.take?
+  by_cases hn : n < 0
+  · simp [hn]
+  · have hn' : n = (n.toNat : Int) := by omega
+    by_cases h : r.rem.length < n.toNat
+    · have : ((r.rem.length : Int) < n) := by omega
+      simp [Width.eval, hn, h, this]
+    · have : ¬ ((r.rem.length : Int) < n) := by omega
+      simp [Width.eval, hn, h, this, Val.eval]
+
+theorem gen_reader_peek (r : Rd) (n : Int) : runGen Gen.ReaderIR.peek r n = some (r.step (.peek n)) := by
+  unfold runGen
+  simp only [Gen.ReaderIR.peek, Gen.ReaderIR.advance, Body.run]
+  rw [peek_simple]; rfl
+
+theorem gen_reader_read (r : Rd) (n : Int) : runGen Gen.ReaderIR.read r n = some (r.step (.read n)) := by
+  unfold runGen
+  simp only [Gen.ReaderIR.read, Gen.ReaderIR.advance, Body.run]
+  unfold Body.runSimple Guard.fails Rd.step Rd.take? Rd.adv
+  by_cases hn : n < 0
+  · simp [hn]
+  · have hn' : n = (n.toNat : Int) := by omega
+    by_cases h : r.rem.length < n.toNat
+    · have : ((r.rem.length : Int) < n) := by omega
+      simp [Width.eval, hn, h, this]
+    · have : ¬ ((r.rem.length : Int) < n) := by omega
+      simp [Width.eval, hn, h, this, Val.eval, runAdv, AdvStmt.run]
+      omega
+
+theorem gen_reader_peekUint16 (r : Rd) (n : Int) :
+    runGen Gen.ReaderIR.peekUint16 r n = some (r.step .peekU16) := by
+  unfold runGen
+  simp only [Gen.ReaderIR.peekUint16, Gen.ReaderIR.peek, Gen.ReaderIR.advance, Body.run]
+  rw [peek_simple]
+  unfold Rd.step
+  cases h : r.take? 2 with
+  | none => rfl
+  | some b =>
+    have hl := take?_some h
+    have hb : b.length = 2 := by
+      rw [hl.2.2]; simp [List.length_take]; omega
+    have : ¬ (b.length < 2) := by omega
+    simp only [this, if_false]
+    rw [List.take_of_length_le (by omega)]
+
+theorem gen_reader_len (r : Rd) (n : Int) : runGen Gen.ReaderIR.len r n = some (r.step .len) := rfl
+theorem gen_reader_readCount (r : Rd) (n : Int) : runGen Gen.ReaderIR.readCount r n = some (r.step .readCount) := rfl
+
+/-- signatures and fields: `count` is an `int` (a narrower counter wraps on long buffers), the integer reads return
+the full-width unsigned types, `Read` / `Peek` take an `int`; `NewReader` starts with the whole buffer and count 0
+(the start state of `run_accounting`); the package has no other function that could touch the fields -/
+theorem gen_reader_signatures :
+    Gen.ReaderIR.fields = [("data", "[]byte"), ("count", "int")] ∧
+    Gen.ReaderIR.advanceParamType = "int" ∧
+    Gen.ReaderIR.newReader = .dataFromArgCountZero ∧
+    Gen.ReaderIR.otherFuncs = [] ∧
+    [Gen.ReaderIR.uint8, Gen.ReaderIR.uint16, Gen.ReaderIR.uint32, Gen.ReaderIR.uint64, Gen.ReaderIR.read,
+      Gen.ReaderIR.peek, Gen.ReaderIR.peekUint16, Gen.ReaderIR.len, Gen.ReaderIR.readCount].map
+        (fun m => (m.params, m.results)) =
+      [("", "uint8, error"), ("", "uint16, error"), ("", "uint32, error"), ("", "uint64, error"),
+       ("int", "[]byte, error"), ("int", "[]byte, error"), ("", "uint16, error"), ("", "int"), ("", "int")] := by
+  decide +kernel
+
+end Translation
 
 /-- **Tie (control-flow skeleton)**: every branch / loop condition, switch case and `break` / `continue` of the
 sources this model mirrors, re-extracted on every run, is exactly the reviewed inventory in `Spec/Sites.lean`
